@@ -24,7 +24,7 @@ import (
 var charNames = map[string]string{
 	"LT": "<", "GT": ">", "AMP": "&", "APOS": "'", "QUOT": `"`, "BSL": `\`, "PCT": "%", "EQ": "=", "HASH": "#",
 	"BQ": "`", "NL": "\n", "CR": "\r", "TAB": "\t", "LBR": "{", "RBR": "}", "SP": " ",
-	"EACUTE": "é", "CJK": "日", "COMB": "\u0301", "E4": "😀", "BAD": "\xff", "NBSP": " ",
+	"EACUTE": "é", "CJK": "日", "COMB": "\u0301", "E4": "😀", "BAD": "\xff", "NUL": "\x00", "NBSP": " ",
 }
 
 // seedChars instantiates the character classes PLAIN (non-special ASCII) and MB (a multi-byte rune)
